@@ -13,7 +13,6 @@ From JV Require SrvC08 SrvC08b SrvC08y.
 Import ListNotations.
 
 (** * the invariant, relative to a fixed environment sequence E that contains every environment label taken *)
-Definition covers (E : list label) (l : label) : Prop := is_env l = true -> In l E.
 
 Record WI (E : list label) (s : state) : Prop := {
   w_err : forall c, stop_err s = Some c -> cause_in E c = true;
@@ -34,28 +33,6 @@ Proof. unfold cause_in. cbn. intros ->. reflexivity. Qed.
 Lemma fed_err_class E c : In (LFeed (FErr c)) E -> existsb (feeds_class (class_of c)) E = true.
 Proof. intros H. apply existsb_exists. exists (LFeed (FErr c)). split; auto. cbn. apply cclass_eqb_refl. Qed.
 
-(* what one critical section does to the recorded cause *)
-Lemma raw_stop_view s l s' os : inv s -> step_raw s l = Some (s', os) ->
-  (stop_err s' = None /\ running s' = true /\ ch_in s' = [] /\ rd s' = RIdle) \/
-  (exists c, SrvC08.stop_cause s l c /\ running s = true /\ running s' = false /\ stop_err s' = Some c) \/
-  (running s' = running s /\ stop_err s' = stop_err s).
-Proof.
-  intros I H. pose proof (SrvC08.raw_ctl _ _ _ _ I H) as C.
-  destruct C as [-> Rn W ->| c s0 s1 Sc Rn S0 P S1|f0 -> Rd Rn ->|f0 i -> Rd Fi Rn S5 C0 Ri Wa Q| -> D ->|u -> D ->
-                |u un s1 -> Eu Su -> S1|S5 Cp Wa Q L].
-  - left. cbn. auto.
-  - right. left. exists c. destruct P. destruct S1 as [->|(_ & ->)]; cbn; auto.
-  - right. right. cbn. auto.
-  - right. right. destruct S5 as (A & B & _). auto.
-  - right. right. destruct (SrvC08.dequeue_nontask_like s) as ((A & B & _) & _). auto.
-  - right. right. cbn. auto.
-  - right. right.
-    pose proof (SrvC08.nontask_release (unit_tasks s u) s) as G0. apply SrvC08.nontask_fields in G0.
-    destruct G0 as (N1 & N2 & N3 & N4 & N5 & N6 & N7 & N8 & N9 & N10 & N11 & N12 & N13 & N14 & N15 & N16 & N17 &
-                  N18 & N19 & N20 & N21 & N22 & N23 & N24 & N25).
-    destruct S1 as [(_ & ->)|(_ & ->)]; cbn; auto.
-  - right. right. destruct S5 as (A & B & _). auto.
-Qed.
 
 Lemma raw_waits s l s' os : inv s -> step_raw s l = Some (s', os) ->
   waits s' <= waits s + (if is_callwait l then 1 else 0).
@@ -77,12 +54,6 @@ Proof.
   - destruct Wa as [->|(-> & ->)]; cbn; lia.
 Qed.
 
-(* Stop runs only for a pending Stop call *)
-Lemma relstop_op s n s' os : step_raw s (LRelStop n) = Some (s', os) -> exists n0, In (OpStop n0) (ops s).
-Proof.
-  unfold step_raw. destruct (find_op n (ops s)) as [[n0|n0 id|n0 w m p]|] eqn:F; try discriminate.
-  intros _. exists n0. apply SrvC07.find_op_some in F. tauto.
-Qed.
 
 Lemma raw_WI E s l s' os : inv s -> WI E s -> step_raw s l = Some (s', os) -> covers E l -> WI E s'.
 Proof.
@@ -212,8 +183,6 @@ Proof.
   - intros n [].
 Qed.
 
-Lemma covers_env_of tr l : In l tr -> covers (env_of tr) l.
-Proof. intros H He. unfold env_of. apply filter_In. auto. Qed.
 
 Lemma callwait_env tr : countb is_callwait (env_of tr) = countb is_callwait tr.
 Proof.
